@@ -6,6 +6,7 @@ import (
 	"go/token"
 	"go/types"
 	"os"
+	"sort"
 	"strings"
 
 	"golang.org/x/tools/go/ssa"
@@ -28,7 +29,12 @@ func init() {
 		NotDecided:  []string{"collisions between *storage* keys that differ only by ':'", "concurrent processes"},
 		Rules: []core.Rule{
 			{ID: "C18-R1", Title: "overwrite replaces: truncating open, then rename", Decides: "get returns exactly the last value set (also after a shorter overwrite)", Floor: 2, Run: c18r1},
-			{ID: "C18-R2", Title: "one path function for all operations", Decides: "set/get/delete/list address the same file", Floor: 4, Run: func(c *core.Ctx) { c18r2(c); passThrough(c, "C18"); tempFileInStorageDirectory(c) }},
+			{ID: "C18-R2", Title: "one path function for all operations", Decides: "set/get/delete/list address the same file", Floor: 4, Run: func(c *core.Ctx) {
+				c18r2(c)
+				passThrough(c, "C18")
+				tempFileInStorageDirectory(c)
+				returnsUndecorated(c, "C18")
+			}},
 			{ID: "C18-R3", Title: "entity keys: full hex of the name + the listed suffix, used by all operations", Decides: "holds for every entity name; listing returns exactly the live entries", Floor: 6, Run: func(c *core.Ctx) { c18r3(c); entityCtorPasses(c) }},
 			{ID: "C18-R4", Title: "errors surface; successful lookups read the storage", Decides: "not-found after delete; no stale entries", Floor: 4, Run: c18r4},
 			{ID: "C18-R5", Title: "exact listing filter; only Set/Delete change files; writes and deletes are unconditional; opening is read-only", Decides: "listing returns exactly the live entries; values survive re-opening; the last value set is what is read", Floor: 6, Run: c18r5},
@@ -408,6 +414,9 @@ func c18r2(c *core.Ctx) {
 								continue
 							}
 							sh := pathShape(a, isKey, env, 8)
+							if os.Getenv("HCSA_DEBUG") != "" {
+								fmt.Fprintf(os.Stderr, "c18r2 %s in %s: shape %s want %s\n", name, g, sh, want)
+							}
 							if want != "" && strings.Contains(want, "KEY") && (sh == want || strings.HasPrefix(sh, want+"+")) {
 								uses = true
 							}
@@ -431,6 +440,76 @@ func c18r2(c *core.Ctx) {
 			walk2(f, pathEnv{}, 2)
 		}
 		c.Check(uses, "path-function:"+name, f.Pos(), name+" derives the file name with filePathToFile(key)", name+" does not derive the file name with filePathToFile(key): operations on one key address different files")
+	}
+	// ... and the three derive it the same way: the shape of the path each hands to the file system, as a term over its own key
+	// ( Join(DIR, Replace(KEY, ":", "", -1)) ), is one and the same. (The test above is satisfied by a call of the path function with
+	// the key; this one sees  fileForRead(key + "x")  — found by the argument-transform sweep.)
+	shapes := map[string]map[string]bool{}
+	for _, name := range []string{"Set", "Get", "Delete"} {
+		f := p.Func("util", "(*fileStorage)."+name)
+		if f == nil || len(f.Params) < 2 {
+			continue
+		}
+		key := f.Params[1]
+		isKey := func(v ssa.Value) bool { return v == ssa.Value(key) }
+		shapes[name] = map[string]bool{}
+		var walk func(g *ssa.Function, env pathEnv, d int)
+		walk = func(g *ssa.Function, env pathEnv, d int) {
+			core.Instrs(g, func(i ssa.Instruction) {
+				h := core.Callee(i)
+				if h == nil {
+					return
+				}
+				switch core.QualName(h) {
+				case "os.OpenFile", "os.Open", "os.Remove", "os.Rename", "os.Create", "io/ioutil.ReadFile", "io/ioutil.WriteFile", "os.ReadFile", "os.WriteFile":
+					for _, a := range core.CallOf(i).Args {
+						if a.Type().String() != "string" {
+							continue
+						}
+						if sh := pathShape(a, isKey, env, 8); strings.Contains(sh, "KEY") {
+							shapes[name][sh] = true
+						}
+					}
+					return
+				}
+				if core.InModule(h) && h.Blocks != nil && d > 0 {
+					env2 := pathEnv{}
+					for k, v := range env {
+						env2[k] = v
+					}
+					for k, pr := range h.Params {
+						if k < len(core.CallOf(i).Args) {
+							env2[pr] = resolve(core.CallOf(i).Args[k], env)
+						}
+					}
+					walk(h, env2, d-1)
+				}
+			})
+		}
+		walk(f, pathEnv{}, 3)
+	}
+	all := map[string]bool{}
+	complete := true
+	for _, name := range []string{"Set", "Get", "Delete"} {
+		if len(shapes[name]) == 0 {
+			complete = false
+		}
+		for sh := range shapes[name] {
+			all[sh] = true
+		}
+	}
+	if complete {
+		var list []string
+		for sh := range all {
+			list = append(list, sh)
+		}
+		sort.Strings(list)
+		pos := token.NoPos
+		if f := p.Func("util", "(*fileStorage).Get"); f != nil {
+			pos = f.Pos()
+		}
+		c.Check(len(all) == 1, "path-function-agreement", pos, "Set, Get and Delete hand the file system the same term over their key: "+strings.Join(list, " | "),
+			"Set, Get and Delete do not derive the path from their key the same way ("+strings.Join(list, " | ")+"): a value is written to one file and read from, or removed as, another")
 	}
 	if f := p.Func("util", "(*fileStorage).KeysWithSuffix"); f != nil {
 		ok := false
